@@ -481,7 +481,7 @@ pub fn run(ctx: &Ctx) -> i32 {
         let mut rng = Rng::new(ctx.seed, 6000 + w as u64);
         let mut rs = RefSearch::new(if ctx.quick() { 120_000 } else { 2_000_000 }, 20_000);
         let mut tries = 0;
-        while made.load(Ordering::Relaxed) < n_pos && tries < n_pos * 30 && !ctx.out_of_time() {
+        while made.load(Ordering::Relaxed) < n_pos && tries < n_pos * 30 && (made.load(Ordering::Relaxed) < 6 || !ctx.past(0.3)) {
             tries += 1;
             let small = tries % 3 == 0;
             let (p, hist) = pos_with_history(&mut rng, small);
@@ -499,7 +499,17 @@ pub fn run(ctx: &Ctx) -> i32 {
         }
         st
     });
-    let plans = plans.into_inner().unwrap();
+    let mut plans = plans.into_inner().unwrap();
+    // anchor plans (same for every seed and machine load): one search small enough to be enumerated
+    // node by node and one three-iteration search
+    {
+        let mut rs = RefSearch::new(2_000_000, 50_000);
+        for (fen, d) in [("8/8/4k3/8/8/4K3/4P3/8 w - - 0 1", 2u8), ("8/5pk1/6p1/8/3B4/6K1/8/8 b - - 0 1", 3u8), ("8/4p3/p7/np6/3k4/5K2/8/8 b - - 0 1", 2u8)] {
+            if let Some(plan) = make_plan(&Pos::from_fen(fen).unwrap(), vec![], d, &mut rs, &mut total) {
+                plans.push(plan);
+            }
+        }
+    }
     say!("phase 1 (plans) done at {:.1}s", ctx.start.elapsed().as_secs_f64());
     // ---- phase 2: the trials, work-shared
     let mut trials: Vec<Trial> = vec![];
@@ -547,7 +557,7 @@ pub fn run(ctx: &Ctx) -> i32 {
         let mut st = Stats::new();
         loop {
             let i = next.fetch_add(1, Ordering::Relaxed);
-            if i >= trials.len() || ctx.out_of_time() {
+            if i >= trials.len() || (i >= 200 && ctx.past(0.75)) {
                 break;
             }
             let t = &trials[i];
@@ -730,7 +740,7 @@ fn c07_big(ctx: &Ctx) -> Stats {
         let mut st = Stats::new();
         let mut rng = Rng::new(ctx.seed, 7000 + w as u64);
         for i in 0..(n / ctx.workers as u64 + 1) {
-            if ctx.out_of_time() {
+            if i >= 4 && ctx.past(0.85) {
                 break;
             }
             let l = match rng.below(4) {
@@ -807,7 +817,7 @@ fn c07_wall(ctx: &Ctx) -> Stats {
         let mut st = Stats::new();
         let mut rng = Rng::new(ctx.seed, 7300 + w as u64);
         for i in 0..(n / ctx.workers as u64 + 1) {
-            if ctx.out_of_time() {
+            if i >= 4 && ctx.past(0.95) {
                 break;
             }
             let p = if i % 2 == 0 { gen::g_explode(&mut rng) } else { gen::g_game_pos(&mut rng) };
@@ -864,7 +874,7 @@ fn c07_blackbox(ctx: &Ctx) -> Stats {
             }
         };
         for i in 0..(n / workers as u64 + 1) {
-            if ctx.out_of_time() {
+            if i >= 2 && ctx.out_of_time() {
                 break;
             }
             let p = if i % 2 == 0 { gen::g_explode(&mut rng) } else { gen::g_game_pos(&mut rng) };
@@ -967,8 +977,8 @@ fn c06_blackbox(ctx: &Ctx) -> Stats {
         let mut st = Stats::new();
         let mut rng = Rng::new(ctx.seed, 6800 + w as u64);
         let mut rs = RefSearch::new(if ctx.quick() { 100_000 } else { 1_500_000 }, 20_000);
-        for _ in 0..(n / workers as u64 + 1) {
-            if ctx.out_of_time() {
+        for k in 0..(n / workers as u64 + 1) {
+            if k >= 1 && ctx.out_of_time() {
                 break;
             }
             let p = gen::g_game_pos(&mut rng);
